@@ -3,4 +3,4 @@ Require Import ExtrOcamlBasic.
 From Coq Require Import ZArith.
 Require Import XV.SerDefs XV.XmlParseDefs.
 (* Z.of_N only so that the type z exists for ocaml/conv.ml *)
-Extraction "extracted/ser_model.ml" serialize_fast parse_content parse_attr Z.of_N.
+Extraction "extracted/ser_model.ml" serialize_fast serialize_other_fast rep_all parse_content parse_attr Z.of_N.
